@@ -107,3 +107,142 @@ Definition table_sound (t : list copy_row) : Prop :=
     reads_only (final_use u) \/
     exists f v, hands_on (row_fn r) u f v /\
                 exists r', In r' t /\ row_fn r' = f /\ row_var r' = v.
+
+(* ======== pointers to statements: who is appended to (rules 11-14 of the translator) ========
+
+   The copies above are about second HEADERS.  The theorems of Props/C20.v also need every
+   builder call `x.M(..)` of the user to be ONE [OAppend x ..] on the cell the user named,
+   executed during the call, and nothing else to happen to any cell that existed before the
+   call.  `*s = append( *s, ..)` on the receiver (UseAppendSelf) guarantees that only if
+     - `s` still points to the cell the method was called on (the translator reports every
+       assignment to, and address of, a receiver or parameter of type *Statement, and accepts
+       the append only directly in the method's body: not inside a function literal, go, defer),
+     - no other cell is reached through a pointer of another type (every conversion from or to
+       a pointer to Statement / []Code / a type with that underlying type, package unsafe, and
+       such values handed to package reflect are reported), and
+     - a method of Statement that appends is only ever called, inside package jen, on the
+       enclosing method's own receiver or on a statement created during the same call.
+   The last point is decided here from three generated tables:
+
+     ptr_results   : for every function or method of jen whose only result is a *Statement, what
+                     each of its return statements returns;
+     ptr_locals    : for every local *Statement variable used as a receiver or returned that is
+                     declared with its own initialiser and never assigned again, never has its
+                     address taken and is not mentioned in a function literal that does not
+                     declare it: what the initialiser is;
+     builder_calls : every mention of a method of Statement in the package (calls, method
+                     values, method expressions, and calls of equally named interface methods),
+                     with what its receiver expression is.                                   *)
+Inductive ptr_kind :=
+| PkSelf                               (* the identifier of the enclosing method's own receiver (of type
+                                          *Statement), directly in the method's body, never assigned *)
+| PkNew                                (* &Statement{..}, new(Statement) *)
+| PkCall (f : str)                     (* f(..) / x.f(..): a function, or a method of another type, declared in
+                                          package jen and called directly *)
+| PkChain (m : str) (k : ptr_kind)     (* e.M(..), M a method of Statement called directly, e is k *)
+| PkLocal (fn var : str)               (* a single-assignment local variable: see ptr_locals *)
+| PkOther (what : str).                (* anything else: parameter, field, global, element, type assertion,
+                                          reassigned or captured variable, interface method, method value, go/defer *)
+
+Definition result_row : Type := str * list ptr_kind.          (* function, what each return returns *)
+Definition local_row : Type := str * str * ptr_kind.          (* function, variable, its initialiser *)
+Definition call_row : Type := str * str * str * ptr_kind.     (* function, where, method, receiver *)
+Definition cr_fn (r : call_row) : str := fst (fst (fst r)).
+Definition cr_where (r : call_row) : str := snd (fst (fst r)).
+Definition cr_method (r : call_row) : str := snd (fst r).
+Definition cr_kind (r : call_row) : ptr_kind := snd r.
+
+Definition lookup_result (rs : list result_row) (f : str) : option (list ptr_kind) :=
+  match find (fun r => str_eqb (fst r) f) rs with Some r => Some (snd r) | None => None end.
+Definition lookup_local (lo : list local_row) (fn v : str) : option ptr_kind :=
+  match find (fun r => str_eqb (fst (fst r)) fn && str_eqb (snd (fst r)) v) lo with
+  | Some r => Some (snd r) | None => None end.
+
+Section Calls.
+Variable rs : list result_row.
+Variable lo : list local_row.
+Variable self_app : list str.
+Variable calls : list call_row.
+
+(* the expression denotes the cell the enclosing method was called on: the receiver itself, a
+   local variable bound to it, or the result of a method of Statement called on it all of whose
+   return statements return that method's receiver again ([n]: depth of the unfolding) *)
+Fixpoint kind_self (n : nat) (k : ptr_kind) : bool :=
+  match n with
+  | O => false
+  | Datatypes.S n =>
+    match k with
+    | PkSelf => true
+    | PkChain m k' =>
+        kind_self n k' &&
+        match lookup_result rs m with Some ks => forallb (kind_self n) ks | None => false end
+    | PkLocal fn v => match lookup_local lo fn v with Some k' => kind_self n k' | None => false end
+    | _ => false
+    end
+  end.
+
+(* the expression denotes a cell created during the current call: &Statement{..}, the result of
+   a function all of whose returns are fresh, of a receiver-returning method called on a fresh
+   cell, or a local variable bound to one *)
+Fixpoint kind_fresh (n : nat) (k : ptr_kind) : bool :=
+  match n with
+  | O => false
+  | Datatypes.S n =>
+    match k with
+    | PkNew => true
+    | PkCall f => match lookup_result rs f with Some ks => forallb (kind_fresh n) ks | None => false end
+    | PkChain m k' =>
+        kind_fresh n k' &&
+        match lookup_result rs m with Some ks => forallb (kind_self n) ks | None => false end
+    | PkLocal fn v => match lookup_local lo fn v with Some k' => kind_fresh n k' | None => false end
+    | _ => false
+    end
+  end.
+
+(* may calling method m change the cell it is called on?  It contains the append itself, or
+   calls such a method on its own cell (out of fuel: yes) *)
+Fixpoint mutating (n : nat) (m : str) : bool :=
+  match n with
+  | O => true
+  | Datatypes.S n =>
+    if existsb (str_eqb m) self_app then true else
+    existsb (fun r => if str_eqb (cr_fn r) m then
+                        if kind_self 8 (cr_kind r) then mutating n (cr_method r) else false
+                      else false) calls
+  end.
+(* (written with if-then-else: vm_compute evaluates both arguments of && and ||) *)
+
+Definition call_ok (r : call_row) : bool :=
+  if kind_self 8 (cr_kind r) then true else
+  if kind_fresh 8 (cr_kind r) then true else negb (mutating 8 (cr_method r)).
+
+(* the obligation: this list is empty *)
+Definition foreign_builder_calls : list call_row := filter (fun r => negb (call_ok r)) calls.
+(* for the evidence: the calls accepted because the receiver was created during the call *)
+Definition fresh_builder_calls : list call_row :=
+  filter (fun r => negb (kind_self 8 (cr_kind r)) && kind_fresh 8 (cr_kind r)) calls.
+
+(* ---- the same, declaratively ---- *)
+Inductive DenotesSelf : ptr_kind -> Prop :=
+| DS_self : DenotesSelf PkSelf
+| DS_chain : forall m k ks, DenotesSelf k -> lookup_result rs m = Some ks ->
+    (forall k', In k' ks -> DenotesSelf k') -> DenotesSelf (PkChain m k)
+| DS_local : forall fn v k, lookup_local lo fn v = Some k -> DenotesSelf k -> DenotesSelf (PkLocal fn v).
+
+Inductive Fresh : ptr_kind -> Prop :=
+| FR_new : Fresh PkNew
+| FR_call : forall f ks, lookup_result rs f = Some ks -> (forall k, In k ks -> Fresh k) -> Fresh (PkCall f)
+| FR_chain : forall m k ks, Fresh k -> lookup_result rs m = Some ks ->
+    (forall k', In k' ks -> DenotesSelf k') -> Fresh (PkChain m k)
+| FR_local : forall fn v k, lookup_local lo fn v = Some k -> Fresh k -> Fresh (PkLocal fn v).
+
+(* method m never changes the cell it is called on: it does not contain the append, and every
+   method it calls on its own cell is quiet too *)
+Inductive Quiet : str -> Prop :=
+| Q_intro : forall m, ~ In m self_app ->
+    (forall r, In r calls -> cr_fn r = m -> kind_self 8 (cr_kind r) = true -> Quiet (cr_method r)) ->
+    Quiet m.
+
+Definition calls_sound : Prop :=
+  forall r, In r calls -> DenotesSelf (cr_kind r) \/ Fresh (cr_kind r) \/ Quiet (cr_method r).
+End Calls.
